@@ -7,8 +7,10 @@ if [ -n "$(git status --porcelain)" ]; then echo "/repo not clean"; exit 2; fi
 git apply "$patch" || { echo "patch does not apply"; exit 2; }
 trap 'git -C /repo checkout -- . ; git -C /repo clean -fdq' EXIT
 for c in "$@"; do
+  cp /verif/evidence/$c.json /tmp/evidence-backup-$c.json 2>/dev/null
   out=$(cd /verif && VERIF_SEED=${VERIF_SEED:-1} ./run "$c" ${TIER:-quick} 2>&1); rc=$?
   echo "== $c exit=$rc: $(echo "$out" | grep -E '^(VIOLATION|OK|INCONCLUSIVE|KNOWN-FINDING|BUILD FAILED)' | head -3 | tr '\n' ' ')"
+  cp /tmp/evidence-backup-$c.json /verif/evidence/$c.json 2>/dev/null; rm -f /tmp/evidence-backup-$c.json
   if [ -n "${VERBOSE:-}" ]; then echo "$out" | grep -v 'rapid\] draw' | tail -15; fi
 done
 rm -rf /verif/replays/*/found
